@@ -30,11 +30,17 @@ type ItemSpec struct {
 
 // Op is one log entry.
 type Op struct {
-	Kind  string     `json:"op"` // ins upd rem bins bupd brem
+	// ins upd rem bins bupd brem; "restore-fresh" / "restore-used" are not log entries: snapshot the replica, restore
+	// the bytes into a fresh / a used replica and continue on that one - what a lagging or re-used replica does;
+	// the contents must not change
+	Kind  string     `json:"op"`
 	Items []ItemSpec `json:"items"`
 }
 
 func (o Op) String() string {
+	if IsRestore(o) {
+		return "snapshot->" + o.Kind
+	}
 	var s []string
 	for _, it := range o.Items {
 		s = append(s, fmt.Sprintf("%s/v%d/m%d", string(rune('a'+it.ID)), it.Vec, it.Meta))
@@ -68,6 +74,38 @@ func BigMetas() {
 		}
 		Metas = append(Metas, m)
 	}
+}
+
+// MBMetas appends (after the BigMetas shapes) four shapes on both sides of the byte limits of the snapshot format,
+// made of multi-byte characters so that a character count and a byte count disagree:
+// 8 = key of 86 three-byte characters (258 bytes: one byte field cannot hold it - must be refused),
+// 9 = key of 85 such characters (255 bytes: the longest storable key) with a two-byte value,
+// 10 = value of 21846 three-byte characters (65538 bytes: must be refused), 11 = value of 21845 (65535 bytes: storable).
+func MBMetas() {
+	BigMetas()
+	if len(Metas) > 8 {
+		return
+	}
+	Metas = append(Metas,
+		map[string]string{strings.Repeat("\u9375", 86): "v"},
+		map[string]string{strings.Repeat("\u9375", 85): "\u00e9"},
+		map[string]string{"k": strings.Repeat("\u5024", 21846)},
+		map[string]string{"k": strings.Repeat("\u5024", 21845)},
+	)
+}
+
+// Storable is the reference's own statement of what the snapshot format can represent (a two-byte entry count, a
+// one-byte key length, a two-byte value length - all in BYTES); deliberately not the repository's Validate.
+func Storable(m map[string]string) bool {
+	if len(m) > 65535 {
+		return false
+	}
+	for k, v := range m {
+		if len(k) > 255 || len(v) > 65535 {
+			return false
+		}
+	}
+	return true
 }
 
 var Vecs = [][]float32{{1, 1}, {2, 1}, {3, 3}, {1}} // index 3 has the wrong dimension (only used by dataset-level checks)
@@ -135,6 +173,10 @@ func RefApply(ref idxlib.Ref, o Op) Outcome {
 		cur, exists := ref[id]
 		switch kind {
 		case "ins":
+			if !Storable(Metas[it.Meta]) {
+				// what the snapshot format cannot represent is refused (before anything else is looked at)
+				return index.MetadataTooLargeError.Error()
+			}
 			if exists {
 				return index.ItemAlreadyExistsError.Error()
 			}
@@ -152,7 +194,7 @@ func RefApply(ref idxlib.Ref, o Op) Outcome {
 					m[k] = v
 				}
 			}
-			if index.Metadata(m).Validate() != nil {
+			if !Storable(m) {
 				// what the update would store cannot be stored: refused, nothing changes
 				return index.MetadataTooLargeError.Error()
 			}
@@ -356,3 +398,42 @@ func Alphabet(thorough bool) []Op {
 }
 
 func IsBatch(o Op) bool { return len(o.Kind) == 4 }
+
+// RestoreOps are the two snapshot->restore steps (into a fresh and into a used replica).
+func RestoreOps() []Op {
+	return []Op{{Kind: "restore-fresh"}, {Kind: "restore-used"}}
+}
+
+func IsRestore(o Op) bool { return strings.HasPrefix(o.Kind, "restore-") }
+
+// DoRestore performs a restore step and returns the replica to continue on.
+func DoRestore(r *Replica, o Op) (*Replica, error) {
+	snap, err := r.P.Snapshot()
+	if err != nil {
+		return nil, fmt.Errorf("snapshot: %v", err)
+	}
+	nr := NewReplica()
+	if o.Kind == "restore-used" {
+		nr = UsedReplica()
+	}
+	if err := nr.P.Restore(snap); err != nil {
+		return nil, fmt.Errorf("restoring the %d-byte snapshot: %v", len(snap), err)
+	}
+	return nr, nil
+}
+
+// UsedReplica is a replica that holds the contents of another log (a lagging or re-used replica about to
+// restore a snapshot): items a (other vector, other metadata), d, and a removed b.
+func UsedReplica() *Replica {
+	d := NewReplica()
+	other := []Op{
+		{Kind: "ins", Items: []ItemSpec{{ID: 0, Vec: 2, Meta: 4}}},
+		{Kind: "ins", Items: []ItemSpec{{ID: 3, Vec: 1, Meta: 1}}},
+		{Kind: "ins", Items: []ItemSpec{{ID: 1, Vec: 0, Meta: 0}}},
+		{Kind: "rem", Items: []ItemSpec{{ID: 1}}},
+	}
+	for i, o := range other {
+		d.Apply(500+i, Entry(o, NotifID(500+i)), false)
+	}
+	return d
+}
